@@ -609,10 +609,13 @@ __find_zrng(const struct zif_s z[static 1U], int32_t t, int min, int max)
 		/* assume the first offset has always been there */
 		res.next = res.prev;
 	} else if (UNLIKELY(trno < 0)) {
-		/* special case where no transitions are recorded */
+		/* T is before the first transition or no transitions are
+		 * recorded at all, that's the realm of the first time type */
 		res.trno = 0U;
 		res.prev = INT_MIN;
-		res.next = INT_MAX;
+		res.next = zif_ntrans(z) ? zif_trans(z, 0) : INT_MAX;
+		res.offs = z->tda[0U].offs;
+		return res;
 	} else {
 		res.trno = (uint8_t)trno;
 		if (LIKELY(trno + 1U < zif_ntrans(z))) {
@@ -639,9 +642,6 @@ static int32_t
 __offs(struct zif_s z[static 1U], int32_t t)
 {
 /* return the offset of T in Z and cache the result. */
-	int min;
-	size_t max;
-
 	switch (z->cz) {
 	default:
 	case TZCZ_UNK:
@@ -654,18 +654,11 @@ __offs(struct zif_s z[static 1U], int32_t t)
 	if (LIKELY(t >= z->cache.prev && t < z->cache.next)) {
 		/* use the cached offset */
 		return z->cache.offs;
-	} else if (t >= z->cache.next) {
-		min = z->cache.trno + 1;
-		max = zif_ntrans(z);
-	} else if (t < z->cache.prev) {
-		max = z->cache.trno;
-		min = 0;
-	} else {
-		/* we shouldn't end up here at all */
-		min = 0;
-		max = 0;
 	}
-	return (z->cache = __find_zrng(z, t, min, max)).offs;
+	/* the cached range says nothing about its neighbours (it may be the
+	 * all-zero range of a freshly opened zone or the one before the first
+	 * transition), so look through all transitions */
+	return (z->cache = __find_zrng(z, t, 0, zif_ntrans(z))).offs;
 }
 
 DEFUN time_t
